@@ -607,24 +607,28 @@ impl Ctx {
     }
 
     /// Runs a property over generated values. `cases` is the total quota over all workers.
-    pub fn run_prop<S, F>(self: &Arc<Self>, sub: &str, strategy: S, cases: u64, f: F)
+    /// `make_strategy` is called once per worker thread (so the strategy itself need not be
+    /// `Send`/`Sync`/`Clone`; `BoxedStrategy` from the repo's generators is fine).
+    pub fn run_prop<S, G, F>(self: &Arc<Self>, sub: &str, make_strategy: G, cases: u64, f: F)
     where
-        S: Strategy + Clone + Send + Sync + 'static,
+        S: Strategy,
+        G: Fn() -> S + Send + Sync,
         S::Value: Debug,
         F: Fn(&S::Value) -> CaseResult + Send + Sync,
     {
-        self.run_prop_with(sub, strategy, cases, 4096, f)
+        self.run_prop_with(sub, make_strategy, cases, 4096, f)
     }
 
-    pub fn run_prop_with<S, F>(
+    pub fn run_prop_with<S, G, F>(
         self: &Arc<Self>,
         sub: &str,
-        strategy: S,
+        make_strategy: G,
         cases: u64,
         max_shrink_iters: u32,
         f: F,
     ) where
-        S: Strategy + Clone + Send + Sync + 'static,
+        S: Strategy,
+        G: Fn() -> S + Send + Sync,
         S::Value: Debug,
         F: Fn(&S::Value) -> CaseResult + Send + Sync,
     {
@@ -658,7 +662,7 @@ impl Ctx {
                 if quota == 0 {
                     continue;
                 }
-                let strategy = strategy.clone();
+                let make_strategy = &make_strategy;
                 let stop = &stop;
                 let distinct = &distinct;
                 let capped = &capped;
@@ -669,6 +673,7 @@ impl Ctx {
                 std::thread::Builder::new()
                     .stack_size(64 << 20)
                     .spawn_scoped(scope, move || {
+                        let strategy = make_strategy();
                         let cfg = Config {
                             cases: quota.min(u32::MAX as u64) as u32,
                             failure_persistence: None,
